@@ -185,9 +185,13 @@ PROP["level_text"] += (" Props/C01c.lean: Go's sort.Stable (insertion sort on bl
                        "search-family case, which the driver now compares with the model's order.")
 
 
+# Props/C01e.lean: the same at the similarity floor of the source (regenerated literal of TFIDFSearcher.Search)
+THEOREMS += ["Wtf.C01.source_floor_nonneg", "Wtf.C01.universal_modelled_source_floor"]
+
+
 def run(ctx):
     ctx.stage_xlate(required_assertions=ASSERTIONS)
-    ctx.stage_prove(THEOREMS, extra_targets=["WtfModel.Props.C01b", "WtfModel.Props.C01c", "WtfModel.Props.C01d"])
+    ctx.stage_prove(THEOREMS, extra_targets=["WtfModel.Props.C01b", "WtfModel.Props.C01c", "WtfModel.Props.C01d", "WtfModel.Props.C01e"])
     if not ctx.stage_build():
         return
     quick = ctx.tier == "quick"
